@@ -33,6 +33,7 @@ pub fn respond(line: &str) -> String {
         "disasraw" => disas::disasraw(rest),
         "dismain" => disas::dismain(rest),
         "loadasm" => disas::loadasm(rest),
+        "loadasmw" => disas::loadasmw(rest),
         "lift" => lift::lift(rest),
         "idmut" => reflect::idmut(rest),
         "conv" => crate::glue_operand::conv(rest),
